@@ -10,7 +10,10 @@ import (
 	"errors"
 	"fmt"
 	"os"
+	"regexp"
+	"runtime/debug"
 	"sort"
+	"strings"
 
 	"verif/gen/gomutants"
 	"verif/kit"
@@ -19,10 +22,26 @@ import (
 )
 
 // judge applies the C03 oracle to one source.
-func judge(op, src string) kit.Outcome {
+func judge(op, src string) (o kit.Outcome) {
 	v := gomutants.Judge(src)
+	defer func() {
+		// a panic of Build on the calling goroutine: keyed by the panicking
+		// function and the message without the operands
+		if e := recover(); e != nil {
+			fr := kit.FirstRepoFrame(string(debug.Stack()))
+			if fr == "" {
+				panic(e)
+			}
+			verdict := "go/types: accepted"
+			if !v.Accepted {
+				verdict = fmt.Sprintf("go/types: main.go:%d:%d: %s", v.Line, v.Column, v.Msg)
+			}
+			o = kit.Outcome{Key: "panic | " + fr + " | " + panicClass(fmt.Sprint(e), src), Class: "fail(panic)", Nontrivial: true, Hash: kit.Hash64(src),
+				Detail: fmt.Sprintf("%s\n%s\nscriggo.Build panics: %v", src, verdict, e)}
+		}
+	}()
 	_, err := scriggo.Build(scriggo.Files{"main.go": []byte(src)}, &scriggo.BuildOptions{AllowGoStmt: true})
-	o := kit.Outcome{OK: true, Nontrivial: true, Hash: kit.Hash64(src), Ops: 2}
+	o = kit.Outcome{OK: true, Nontrivial: true, Hash: kit.Hash64(src), Ops: 2}
 	var be *scriggo.BuildError
 	if err != nil && !errors.As(err, &be) {
 		return kit.Outcome{Key: op + " | error-type " + fmt.Sprintf("%T", err) + " | " + kit.NormMsg(err.Error()), Class: "fail", Nontrivial: true, Hash: o.Hash,
@@ -31,6 +50,9 @@ func judge(op, src string) kit.Outcome {
 	switch {
 	case v.Accepted && !v.Subset:
 		o.Class = "skipped:outside-subset(valid only for Go newer than " + gomutants.ScriggoLevel + ")"
+		o.Nontrivial = false
+	case v.Accepted && v.Quirk != "":
+		o.Class = "skipped:reference-quirk(" + v.Quirk + ")"
 		o.Nontrivial = false
 	case v.Accepted && err == nil:
 		o.Class = "both-accept"
@@ -47,6 +69,25 @@ func judge(op, src string) kit.Outcome {
 			Detail: fmt.Sprintf("%s\ngo/types: main.go:%d:%d: %s\nscriggo.Build: accepted", src, v.Line, v.Column, v.Msg)}
 	}
 	return o
+}
+
+var reAddr = regexp.MustCompile(`0x[0-9a-f]+`)
+var reNode = regexp.MustCompile(`is \*ast\.\w+,`)
+var reIdent = regexp.MustCompile(`identifier \w+`)
+var reElem = regexp.MustCompile(`Elem of invalid type .*`)
+
+// panicClass reduces a panic message to its constant part.
+func panicClass(msg, src string) string {
+	for _, cut := range []string{" &ast.", "(expr:", "{"} {
+		if i := strings.Index(msg, cut); i >= 0 {
+			msg = msg[:i]
+		}
+	}
+	msg = reAddr.ReplaceAllString(msg, "ADDR")
+	msg = reNode.ReplaceAllString(msg, "is *ast.<node>,")
+	msg = reIdent.ReplaceAllString(msg, "identifier <name>")
+	msg = reElem.ReplaceAllString(msg, "Elem of invalid type <type>")
+	return kit.NormMsg(msg)
 }
 
 type seedPlan struct {
@@ -119,6 +160,15 @@ func spaces(tier string) []kit.Space {
 	return sps
 }
 
+func structural(op string) bool {
+	for _, p := range []string{"expr→", "wrap ", "insert ", "insert-decl ", "delete-token ", "ident→"} {
+		if strings.HasPrefix(op, p) {
+			return false
+		}
+	}
+	return true
+}
+
 // secondOrderSeeds are the seeds mutated twice in the thorough tier.
 var secondOrderSeeds = []string{"arith", "structs", "interfaces", "closures", "switches"}
 
@@ -131,7 +181,14 @@ func secondOrder(_ []seedPlan, seeds []gomutants.Seed) []kit.Space {
 				seed = s
 			}
 		}
-		first := gomutants.Plan(seed.Src)
+		// first mutation: the structural operators (statements, declarations,
+		// names, arities, signatures); second mutation: every operator
+		var first []gomutants.Mutant
+		for _, m := range gomutants.Plan(seed.Src) {
+			if structural(m.Op) {
+				first = append(first, m)
+			}
+		}
 		// children of every first-order mutant that still parses
 		var starts []uint64
 		total := uint64(0)
@@ -168,7 +225,7 @@ func main() {
 		ID:       "C03",
 		Level:    "model_checking",
 		Isolated: true,
-		Rule:     "every first-order mutant of every seed program: each AST position (expression slots, declaration names, statement lists, declaration list, calls, returns, assignments, value specs, function signatures, binary expressions) x each applicable operator of verif/gen/gomutants, plus the deletion of each token; thorough adds every second-order mutant of 5 seeds. A case is non-trivial when go/types' verdict is usable (all but mutants that are valid only for a Go version newer than Scriggo's language level); distinct cases are counted by the hash of the mutant text",
+		Rule:     "every first-order mutant of every seed program: each AST position (expression slots, declaration names, statement lists, declaration list, calls, returns, assignments, value specs, function signatures, binary expressions) x each applicable operator of verif/gen/gomutants, plus the deletion of each token; thorough adds, for 5 seeds, every second-order mutant whose first mutation is structural (statement/declaration deletion and duplication, renamed declarations, arities of calls, returns, assignments and signatures) and whose second mutation is any operator. A case is non-trivial when go/types' verdict is usable (all but mutants that are valid only for a Go version newer than Scriggo's language level); distinct cases are counted by the hash of the mutant text",
 		Assumptions: []string{
 			"reference = go/parser + go/types of the toolchain that builds the check, GoVersion go1.25, no importer; soft errors (unused variable/import/label) are rejections",
 			"Scriggo's supported subset = Go 1.17 language level without generics: a mutant that go/types accepts with GoVersion go1.25 but rejects with go1.17 is outside the subset and skipped",
